@@ -24,6 +24,11 @@ type Frame struct {
 	Name string
 	Node int // call-site AST position
 	Tail bool
+	// Alt is a second acceptable call-site position (-1: none).  A condition
+	// handler is called by handler-bind without a written call expression:
+	// the handler-bind form (Node) and the handler expression (Alt) are both
+	// taken as its call site.
+	Alt int
 }
 
 // Abort is raised (as a Go panic) when the reference gives up: recursion too
@@ -62,6 +67,8 @@ type Interp struct {
 	MaxDepth int
 	MaxSteps int
 	chain    []Frame
+	pushAlt  int // Alt+1 for the next frame pushed (0: none)
+	opNode   int // position of the special form being applied (read at operator entry)
 	condStk  []*Err
 	CondIDs  []int // error identities seen by (host-cond ...), 0 = none pending
 	curNode  int
@@ -308,7 +315,8 @@ func posOr(p, d int) int {
 }
 
 func (in *Interp) push(name string, node int) func() {
-	in.chain = append(in.chain, Frame{Name: name, Node: node})
+	in.chain = append(in.chain, Frame{Name: name, Node: node, Alt: in.pushAlt - 1})
+	in.pushAlt = 0
 	n := len(in.chain)
 	return func() { in.chain = in.chain[:n-1] }
 }
@@ -456,6 +464,7 @@ func (in *Interp) applySpecial(env *Env, fn *Fun, raw []*V, form *V) (*V, *Err) 
 		if e := in.checkArity(fn, raw); e != nil {
 			return nil, e
 		}
+		in.opNode = form.Pos
 		return fn.Builtin(in, env, raw)
 	}
 	// macro: expand, then evaluate the expansion once in the caller's scope
@@ -982,6 +991,7 @@ func installSpecials(in *Interp, p *Package) {
 }
 
 func opHandlerBind(in *Interp, env *Env, a []*V) (*V, *Err) {
+	self := in.opNode // the handler-bind form: the call site of its handlers
 	binds := a[0]
 	if binds.T != TList {
 		return nil, in.errf("first argument is not a list")
@@ -1021,7 +1031,11 @@ func opHandlerBind(in *Interp, env *Env, a []*V) (*V, *Err) {
 					in.Unsupported = "special function used as a condition handler"
 					re = in.errf("unsupported")
 				} else {
-					rv, re = in.Apply(env, h.Fn, args, -1)
+					in.curNode = posOr(self, in.curNode)
+					if b.C[1].Pos >= 0 {
+						in.pushAlt = b.C[1].Pos + 1
+					}
+					rv, re = in.Apply(env, h.Fn, args, self)
 				}
 				in.condStk = in.condStk[:len(in.condStk)-1]
 				return rv, re
